@@ -693,6 +693,19 @@ class Extractor:
                 if not arms or len(arms) != n_extend:
                     raise LostAnchor('%s: fn %s: scanner arms not in the expected `CHAR => bits.extend([..])` form' % (kv['file'], kv['fn']))
                 rows = []
+                # every other arm with character patterns (`'_' => continue`, `'x' => { .. }`): the scanner ACCEPTS that character
+                # without emitting the bits of a symbol - copied as a row with an empty bit list, which the lemma rejects
+                # ("no row for an undocumented character"); the single `_ =>` arm must be the error return
+                mbody = mask_noncode(body)
+                for am in re.finditer(r"((?:'(?:\\.|[^'\\])'\s*\|\s*)*'(?:\\.|[^'\\])')\s*(?:if\b[^=]*)?=>", body):
+                    tail = body[am.end():am.end() + 40]
+                    if re.match(r'\s*bits\.extend\(', tail):
+                        continue
+                    for ch in re.findall(r"'((?:\\.|[^'\\]))'", am.group(1)):
+                        c = {'\\n': 10, '\\t': 9, '\\r': 13, '\\0': 0, "\\'": 39, '\\\\': 92}.get(ch, ord(ch[-1]))
+                        rows.append('(%du8, seq![])' % c) if c < 256 else None
+                if re.search(r"'[^']+'\s*\.\.=?\s*'[^']+'\s*=>|\bc\s+if\b", mbody.replace(' ', ' ')) or len(re.findall(r'(?m)^\s*_\s*=>', body)) != 1 or not re.search(r'_\s*=>\s*\{?\s*return\s+Err\(', body):
+                    raise LostAnchor('%s: fn %s: scanner has range / guarded arms or no single `_ => return Err(..)` arm' % (kv['file'], kv['fn']))
                 for chars, bits in arms:
                     bl = [b.strip() for b in bits.split(',') if b.strip()]
                     if any(b not in ('0', '1') for b in bl):
